@@ -195,6 +195,12 @@ def rule_diagonal_solver(rep: Report, repo: Repo, complex_energies: bool = True)
         ok = not negs and len(rets) == 1 and _result_uses(rets[0].value, roles, recips, kind)
         rep.check(ok, RULE, f"{MOD}::solve_sylvester_diagonal[{kind}] result is +Y (.) denominators",
                   f"`{norm(rets[0].value) if rets else ''}`", loc(rets[0] if rets else node))
+        # the quotient is returned as computed: no cast / rounding / real-part between the product and the return
+        if rets:
+            lossy = _lossy_ops(rets[0].value, roles)
+            rep.check(not lossy, RULE, f"{MOD}::solve_sylvester_diagonal[{kind}] the quotient is returned without a lossy conversion",
+                      ("found " + "; ".join(lossy) + ": Y / (E_i - E_j) is not representable in the dtype of an integer (or real) right-hand side")
+                      if lossy else "no dtype=, astype, rounding or real/imag projection on the result path", loc(rets[0]))
     rep.floor(RULE, "value-type branches of the diagonal solver", n_value_branches, 5)
     # zero passthrough first
     first = f.body[0] if not (isinstance(f.body[0], ast.Expr) and isinstance(f.body[0].value, ast.Constant)) else f.body[1]
@@ -356,6 +362,38 @@ def _nondegenerate_when_true(cond, roles, diffs):
         if isinstance(op, ast.NotEq) and ((_is_diff(l, roles, diffs) and norm(r) == "0") or (_is_diff(r, roles, diffs) and norm(l) == "0")):
             return True
     return None
+
+
+LOSSY_CALLS = {"np.round", "np.around", "np.rint", "np.floor", "np.ceil", "np.trunc", "np.fix", "int", "round", "np.real", "np.imag",
+               "np.int64", "np.int32", "np.float32", "np.float16", "np.clip"}
+
+
+def _lossy_ops(ret, roles: "Roles") -> list[str]:
+    """Casts / rounding applied on the way from the computed quotient to the returned value."""
+    out, stack, seen = [], [ret], set()
+    while stack:
+        n = stack.pop()
+        if id(n) in seen:
+            continue
+        seen.add(id(n))
+        if isinstance(n, ast.Name) and n.id in roles.assign and n.id not in ("Y", "eigs_A", "eigs_B"):
+            stack.append(roles.assign[n.id])
+        if isinstance(n, ast.Call):
+            nm = call_name(n) or ""
+            if any(k.arg == "dtype" for k in n.keywords):
+                out.append(f"`dtype=` in `{norm(n)[:60]}`")
+            if isinstance(n.func, ast.Attribute) and n.func.attr in ("astype", "round", "view"):
+                out.append(f"`.{n.func.attr}(...)` in `{norm(n)[:60]}`")
+            if nm in LOSSY_CALLS:
+                out.append(f"`{nm}(...)`")
+            # do not look inside index / eigenvalue preparation (np.array(eigs, dtype=object) is not on the result path)
+            if nm in ("np.array", "np.asarray") and n.args and roles.role(n.args[0])[0] in ("A", "B"):
+                out.pop() if out and "dtype=" in out[-1] else None
+                continue
+        if isinstance(n, ast.Attribute) and n.attr in ("real", "imag"):
+            out.append(f"`.{n.attr}`")
+        stack.extend(ast.iter_child_nodes(n))
+    return sorted(set(out))
 
 
 def _result_uses(ret, roles: Roles, recips, kind) -> bool:
